@@ -627,20 +627,20 @@ theorem swap_parts (p : PoolD) (ticks : TickMap) (arrays : List Int) (amount lim
     (h : swap p ticks arrays amount limit isInput aToB now af fuel = .ok u) :
     ∃ rewards fm s, FeeMgr.new aToB p.tick now p.feeRate af = .ok fm ∧
       swapLoop (swapCtxOf p arrays limit isInput aToB rewards) fuel (swapInit p ticks amount aToB fm) none = .ok s ∧
-      swapFinish p amount limit isInput aToB now rewards s = .ok u := by
+      swapFinish p amount limit isInput aToB now rewards s = .ok u ∧ nextRewardInfos p now = .ok rewards := by
   unfold swap at h
   split at h
   · cases h
   · split at h
     · cases h
-    · rename_i rewards _
+    · rename_i rewards hrw
       split at h
       · cases h
       · rename_i fm hfm
         split at h
         · cases h
         · rename_i s hs
-          exact ⟨rewards, fm, s, hfm, hs, h⟩
+          exact ⟨rewards, fm, s, hfm, hs, h, hrw⟩
 
 /-- static pools keep a static manager, adaptive pools an adaptive one with the same constants -/
 def FmKind (af : Option AfInfo) (fm : FeeMgr) : Prop :=
@@ -681,14 +681,14 @@ theorem swap_setup (p : PoolD) (ticks : TickMap) (ps : List (Nat × PositionD)) 
     ∃ rewards fm s, CtxOK (swapCtxOf p arrays limit isInput aToB rewards) ∧
       Path (swapCtxOf p arrays limit isInput aToB rewards) ps p.price (swapInit p ticks amount aToB fm) ∧
       swapLoop (swapCtxOf p arrays limit isInput aToB rewards) fuel (swapInit p ticks amount aToB fm) none = .ok s ∧
-      swapFinish p amount limit isInput aToB now rewards s = .ok u := by
+      swapFinish p amount limit isInput aToB now rewards s = .ok u ∧ nextRewardInfos p now = .ok rewards := by
   obtain ⟨g1, g2, g3, _⟩ := C03.swap_limit_guard _ _ _ _ _ _ _ _ _ _ _ h
-  obtain ⟨rewards, fm, s, hfm, hloop, hfin⟩ := swap_parts _ _ _ _ _ _ _ _ _ _ _ h
+  obtain ⟨rewards, fm, s, hfm, hloop, hfin, hrw⟩ := swap_parts _ _ _ _ _ _ _ _ _ _ _ h
   have htb : MIN_TICK_INDEX - 1 ≤ p.tick ∧ p.tick ≤ MAX_TICK_INDEX := by
     have := min_le_max
     rcases tp with ⟨a, b, _⟩ | ⟨a, _⟩ <;> omega
   have hfm0 := new_ok aToB p.tick now p.feeRate af fm hfee haf htb.1 htb.2 hfm
-  refine ⟨rewards, fm, s, { ts := hts, consec := hseq.1, aligned := hseq.2, lim_lo := g1, lim_hi := g2 }, ?_, hloop, hfin⟩
+  refine ⟨rewards, fm, s, { ts := hts, consec := hseq.1, aligned := hseq.2, lim_lo := g1, lim_hi := g2 }, ?_, hloop, hfin, hrw⟩
   exact
     { liq := hliq, tf := tf, tp := tp,
       lim := by
@@ -716,7 +716,7 @@ theorem swap_path (p : PoolD) (ticks : TickMap) (ps : List (Nat × PositionD)) (
     (af = none → u.afInfo = none) ∧
     (∀ info, af = some info → ∃ info', u.afInfo = some info' ∧ info'.constants = info.constants ∧ InfoOK info') := by
   obtain ⟨g1, g2, g3, _⟩ := C03.swap_limit_guard _ _ _ _ _ _ _ _ _ _ _ h
-  obtain ⟨rewards, fm, s, hfm, hloop, hfin⟩ := swap_parts _ _ _ _ _ _ _ _ _ _ _ h
+  obtain ⟨rewards, fm, s, hfm, hloop, hfin, hrw⟩ := swap_parts _ _ _ _ _ _ _ _ _ _ _ h
   have htb : MIN_TICK_INDEX - 1 ≤ p.tick ∧ p.tick ≤ MAX_TICK_INDEX := by
     have := min_le_max
     rcases tp with ⟨a, b, _⟩ | ⟨a, _⟩ <;> omega
